@@ -877,6 +877,7 @@ class AgentSchedulingComponent(rpu.AgentComponent):
 
                     if td.get('ranks') <= 0:
                         self._fail_task(task, ValueError('invalid ranks'), '')
+                        continue
 
                     # check if this task is to be scheduled by sub-schedulers
                     # like raptor
